@@ -247,6 +247,14 @@ func c19(c *Ctx) {
 					}
 				}
 			}
+			// a SECOND 0x1210 on the same connection that does not list the earlier names (records accumulate over
+			// the announcements of a connection: whatever was decided about a name when it was announced must still
+			// hold when the connection ends)
+			if rng.Intn(3) == 0 {
+				second := []AttItem{{Name: []byte(fmt.Sprintf("second%d.jpg", rng.Intn(10))), Size: 3}}
+				segs = append(segs, Frame808(0x1210, v2019, bcd, 9, Body1210(d, []byte("TERMINAL-ID"), 0, -1, second)))
+				c.Count("second-1210")
+			}
 			// file names also travel in 0x1211 (file information) and 0x1212 (upload complete): announce hostile and
 			// plain names there too (names known from the 0x1210 and names the connection never announced)
 			if rng.Intn(3) == 0 {
